@@ -104,6 +104,14 @@ def main():
                 mod.run(ctx)
             except common.ImplementationError as e:
                 ctx.fail("correspondence", f"implementation raised on an in-domain input: {e}", inp=getattr(e, "inp", None))
+            except Exception as e:
+                # the comparison itself could not be carried out on this tree (the implementation raised inside a harness call, or
+                # returned something the harness cannot even compare): the correspondence is not established; the search below
+                # looks for a property-level failing input. (Toolchain / build problems are raised by build() and stay exit 2.)
+                tb = traceback.extract_tb(e.__traceback__)
+                where = next((f"{os.path.relpath(f.filename, common.REPO)}:{f.lineno}" for f in reversed(tb) if f.filename.startswith(common.REPO)), None)
+                traceback.print_exc()
+                ctx.fail("correspondence", (f"implementation raised {type(e).__name__} at {where}: " if where else f"correspondence run could not be completed ({type(e).__name__}): ") + str(e)[:300])
         # monitors / search: concrete failing inputs on the real code
         violations = list(getattr(ctx, "violations", []))
         if ctx.failures or getattr(mod, "ALWAYS_SEARCH", False) or ctx.thorough:
@@ -111,6 +119,9 @@ def main():
                 violations += mod.search(ctx) or []
             except common.ImplementationError as e:
                 violations.append({"key": {"error": str(e)[:120]}, "what": f"implementation raised: {e}", "input": getattr(e, "inp", None)})
+            except Exception as e:
+                traceback.print_exc()
+                ctx.fail("correspondence", f"search for a failing input could not be completed ({type(e).__name__}): {str(e)[:300]}")
     except Exception:
         traceback.print_exc()
         print(f"INFRASTRUCTURE-ERROR property={pid}")
